@@ -247,7 +247,7 @@ fn populate_op() -> impl Strategy<Value = Op> {
 }
 
 pub fn strategy(_t: Tier) -> impl Strategy<Value = StmtCase> {
-    (any::<u8>(), prop::collection::vec(populate_op(), 4..14), prop::collection::vec(op(), 6..26)).prop_map(|(style, setup, ops)| StmtCase { style, setup, ops })
+    (any::<u8>(), prop::collection::vec(populate_op(), 0..14), prop::collection::vec(op(), 1..26)).prop_map(|(style, setup, ops)| StmtCase { style, setup, ops })
 }
 
 // ---------------------------------------------------------------------------------------------
